@@ -26,15 +26,15 @@ claimed = {
  'C08': claim('model_checking', "Relational: for splits P.Q of corpus paths the real retrieval of P.Q is compared with the concatenation of $Q over the results of P on one symbolic document; union/multi-name = concatenation of single selectors; ..X = X over all containers in pre-order. " + BOUNDED, '§5 C08', "A multi-identifier mixing names and * applied to an array, and a union applied to an object, are excluded from the single-selector instance (the statement does not settle them)."),
  'C09': claim('model_checking', "Relational over filter pairs on one symbolic container (array 0..2 or object over {a,b}, members of every kind): A&&B = intersection, A||B = union, !p and != = complement, operand swap with mirrored operator, <=/>= = </> union ==. Selections are compared by member position, observed through accessors. Number literal is a symbolic finite float64. " + BOUNDED, '§5 C09'),
  'C10': claim('model_checking', "(a) Every comparison filter (7 operators x operand kinds x both orders) against the typed-comparison reference on documents with float64, json.Number and mixed leaves; (b) twin relation: the same symbolic document with numbers as float64 and as json.Number selects the same member positions. " + BOUNDED, '§5 C10', "json.Number is modelled as (spelling identity, finite numeric value); the twin run assumes finite non-negative-zero numbers in shortest formatting."),
- 'C11': claim('model_checking', "Parse runs on `$[S:E:T]` / `$[N]` templates whose numerals are holes, so the parser actions and both getIndexes kernels execute on 64-bit symbolic start/end/step (every int64 value, every omitted-combination) for each array length 0..6 (thorough 0..12). Asserted: no panic, empty selection <=> ErrorMemberNotExist, same elements as the overflow-free Python-slice reference. " + BOUNDED, '§5 C11', "Array lengths above the bound and the digit-string<->value relation of strconv.Atoi are outside the claim."),
+ 'C11': claim('model_checking', "Parse runs on `$[S:E:T]` / `$[N]` templates whose numerals are holes, so the parser actions and both getIndexes kernels execute on 64-bit symbolic start/end/step (every int64 value, every omitted-combination) for each array length 0..8 (thorough 0..16). Asserted: no panic, empty selection <=> ErrorMemberNotExist, same elements as the overflow-free Python-slice reference. " + BOUNDED, '§5 C11', "Array lengths above the bound and the digit-string<->value relation of strconv.Atoi are outside the claim."),
  'C12': claim('model_checking', "Relational: the same path parsed with and without accessor mode (identical recording functions) evaluated on one symbolic document: same count, Get() equals the plain value, same error text, identical function-call logs, no Accessor ever reaches a user function. " + BOUNDED, '§5 C12'),
  'C13': claim('model_checking', "For every accessor index of every corpus path on a symbolic document: Set is nil exactly for non-locations; Set writes the sentinel into exactly the location the reference evaluator predicts (heap diff of the document), Get returns it and follows later direct updates. " + BOUNDED, '§5 C13'),
  'C14': claim('model_checking', "Recording user functions: the call log of the real evaluation is compared with the reference evaluator's (per chain position: same functions, same arguments, same order; aggregates once with all values or the elements of the single array); ErrorFunctionFailed must name a function that failed. " + BOUNDED, '§5 C14', "For functions inside filter operands only the set of calls is compared (how often an operand is evaluated is not prescribed)."),
  'C15': claim('model_checking', "On failing (path, document) pairs the error message of the real evaluation must be one of the messages the reference computes for failures at the deepest failing step, non-type failures preferred; exactly one candidate for single-valued paths. " + BOUNDED, '§5 C15'),
  'C16': claim('model_checking', "Keys with symbolic ASCII bytes (66 tricky skeletons, 0-1 symbolic byte at each position, near-miss sibling keys) go through the reference escaper, the real PEG parser, the three unescape routines and the map lookup; each spelling (single/double quoted, dot) must return exactly the member, at the root, below a name step and inside a filter operand. " + BOUNDED, '§5 C16', "Symbolic bytes are ASCII; `..` with symbolic keys is not modelled (sorting)."),
- 'C17': claim('translation_validation', "Translation validation of jsonpath.peg.go against jsonpath.peg, both read from /repo on every run: the generated recogniser (real code) and an interpreter of the grammar file run jointly on the same symbolic strings (1..6 symbolic bytes; skeletons with a symbolic byte); traces of text captures and actions, acceptance, error position and `near` text must agree on every path; the action bodies of Execute() are compared textually with the grammar's. " + BOUNDED, '§5 C17, App. F', "The semantic restrictions beyond the grammar are implemented by the (textually compared) action bodies; their outcome is checked only as 'rejected by the grammar => error'."),
+ 'C17': claim('translation_validation', "Translation validation of jsonpath.peg.go against jsonpath.peg, both read from /repo on every run: the generated recogniser (real code) and an interpreter of the grammar file run jointly on the same symbolic strings (1..5 symbolic bytes, thorough 6; skeletons with a symbolic byte); traces of text captures and actions, acceptance, error position and `near` text must agree on every path; the action bodies of Execute() are compared textually with the grammar's. " + BOUNDED, '§5 C17, App. F', "The semantic restrictions beyond the grammar are implemented by the (textually compared) action bodies; their outcome is checked only as 'rejected by the grammar => error'."),
  'C18': claim('model_checking', "Relational: each corpus path against 3 (thorough 6) respellings (spaces, quotes, signs and leading zeros, .* vs [*], .name vs ['name'], omitted $, omitted slice parts), both parsed by the interpreted real parser and evaluated on one symbolic document: same values, or same error kind at the same step. " + BOUNDED, '§5 C18'),
- 'C19': claim('model_checking', "Histories of 1-2 (thorough 1-4) earlier Parse calls (valid paths and paths failing at every action kind, 6 configurations) followed by the call under test: parser state zero and mutex free after every call; outcome equal to the same call made first, by error text and by behaviour on a symbolic document incl. function identity and accessor wrapping; modifying the Config afterwards changes nothing. " + BOUNDED, '§5 C19'),
+ 'C19': claim('model_checking', "Histories of 1-3 (thorough 1-5) earlier Parse calls (valid paths and paths failing at every action kind, 6 configurations) followed by the call under test: parser state zero and mutex free after every call; outcome equal to the same call made first, by error text and by behaviour on a symbolic document incl. function identity and accessor wrapping; modifying the Config afterwards changes nothing. " + BOUNDED, '§5 C19'),
  'C20': claim('model_checking', "Documents whose leaves range over 22 non-JSON Go value prototypes besides the JSON kinds; interface equality incl. the run-time panic on uncomparable types is implemented in the engine. Asserted: no panic, documented errors, results equal to the reference evaluator (opaque values are present, untyped, deep-equal by reflect.DeepEqual). " + BOUNDED, '§5 C20', "One prototype per Go type family."),
 }
 
